@@ -4,12 +4,20 @@ Real side: every *phase* of a case is one boot of the real hub in a FRESH subpro
 harness.boot_c07`, the repo's own startup.init_* sequence) on the same persistence store (JSON file driver; Redis
 driver through the real redis client over loopback to a fakeredis.TcpFakeServer that the worker keeps alive). A phase
 applies a random history of API calls (POST/PATCH/DELETE /ports, PATCH value, PATCH /device, PUT/PATCH/DELETE /devices,
-offline device-level edits of a slave), lets the hub's own save loop run once, dumps GET /ports, /device, /devices and
+offline device-level edits of a slave, POST /devices against simulated remote devices that are reachable only in the
+boot that adds them), lets the hub's own save loop run once, dumps GET /ports, /device, /devices and
 exits; the next phase boots on the same store and dumps again, together with the driver write_value log of the load.
 Model side: QtVerif.Model.Config via Driver/C07.lean, fed with the same operations and the observed value changes.
-Oracle: documents before the restart == documents after it (volatile attributes excepted), one driver write per
-persisted writable port with its last value through the write transform, none for the others; removed ports and
-slaves absent.
+Oracle: documents before the restart == documents after it (volatile attributes excepted; the ports of slave devices
+included), one driver write per persisted writable port with its last value through the write transform, none for the
+others; removed ports and slaves absent.
+
+Known finding C07-non-inverse-transforms-drift (status "known", known.d/C07.json): a persisted, enabled, writable port
+whose read transform is not the inverse of its write transform comes back with read(write(v)). The oracle predicts that
+drift for exactly those ports, takes their value (and nothing else) out of the before/after comparison and requires it
+to be the predicted one; corpus case c12 reports it (KNOWN-FINDING line on every run), generated cases tag it
+(`known-drift`) and are otherwise checked in full. Lean: C07.non_inverse_transforms_drift (witness),
+C07.persisted_value_survives_first_read (the statement under the inverse-transform hypothesis).
 """
 import hashlib
 import json
@@ -124,6 +132,11 @@ def apply_meaning(m, v):
     raise ValueError(kind)
 
 
+def same_value(a, b):
+    """port values: equal, and a boolean is not a number"""
+    return a == b and isinstance(a, bool) == isinstance(b, bool)
+
+
 class BootFailed(Exception):
     def __init__(self, k, err):
         super().__init__(f'boot #{k} failed: {err[-600:]}')
@@ -162,29 +175,44 @@ class C07(Prop):
     N_THOROUGH = 1600
     CASE_TIMEOUT = 120
     RULE = ('random API histories over 2-3 boots of the real hub, each boot a fresh subprocess on the same store '
-            '(JSON file driver, or Redis driver over loopback to a fakeredis TCP server): add/remove virtual ports of '
-            'all definitions, PATCH of every modifiable attribute incl. driver-defined ones (special-character strings: '
+            '(JSON file driver, or Redis driver over loopback to a fakeredis TCP server): add/remove virtual ports with '
+            'every combination of the definition fields (choices together with min/max/step/integer), PATCH of every '
+            'modifiable attribute incl. driver-defined ones (special-character strings: '
             'quotes, backslashes, control and non-ASCII characters), expressions with nesting and odd whitespace, '
-            'inverse transform pairs, unparsable expressions inside otherwise valid PATCHes, persisted flags and value '
+            'inverse transform pairs and - 12 % of the transform edits - a read transform without write transform or the '
+            'reverse (known finding: exactly the predicted drift of that port\'s value is tolerated), unparsable '
+            'expressions inside otherwise valid PATCHes, persisted flags and value '
             'writes, device name/display name/passwords, disabled slave devices with cached attributes and offline '
-            '(provisioning) edits of device attributes and webhooks parameters; before a restart, optionally (a) ONE storage '
+            '(provisioning) edits of device attributes and webhooks parameters; 15 % of the cases add three simulated '
+            'remote slave devices with two ports each (POST /devices over an in-process AsyncHTTPClient; reachable only in '
+            'the boot that adds them, no polling/listening: afterwards the hub lives on what it persisted), the name of '
+            'one a proper prefix of another\'s, tag some of their ports and DELETE one device, mostly after a save-loop '
+            'period; before a restart, optionally (a) ONE storage '
             'write of the save loop fails (OSError injected by a subclass of the real persist driver) and the hub gets a few '
             'save-loop periods, (b) the same attribute is edited twice in a row with no other write afterwards; a case is non-trivial when a restart happened with >= 1 persisted writable port '
             'holding a value and >= 1 non-default attribute; distinct = distinct canonical final documents')
-    CORRESPONDENCE = ('Config.step/boot (setAttr, prepareForSave, loadFromData, vports add/remove/init, device save/load, '
-                      'slave record save/load) <-> core/ports.py load_from_data/prepare_for_save/save_loop, core/vports.py, '
+    CORRESPONDENCE = ('Config.step/boot (setAttr, prepareForSave, loadFromData, firstRead, vports add/remove/init, device '
+                      'save/load, slave record save/load) <-> core/ports.py load_from_data/prepare_for_save/save_loop, core/vports.py, '
                       'core/api/funcs/ports.py, core/device, slaves/devices.py through the API functions and a real process '
                       'restart')
     TRUSTED = ['a restart is a fresh interpreter running the repo\'s startup.init_* sequence on the same store; '
                'fakeredis.TcpFakeServer stands in for a Redis server; virtual time inside the child process',
                'instrumented drivers: harness.ports_c07.LoggingPort (static ports) and a logging wrapper around '
-               'VirtualPort.write_value']
+               'VirtualPort.write_value',
+               'harness.simslave_c07.FakeClient (installed with tornado\'s AsyncHTTPClient.configure) stands in for the '
+               'network: GET /device and GET /ports of the simulated devices while they are up, connection refused '
+               'otherwise']
     ASSUMPTIONS = ['"a save" = one period of the hub\'s own save loop after the last change (plus the saves the API '
                    'functions perform themselves); cleanup does not flush ports marked pending-save',
                    'the store returns what was stored (C06); expression printing is a parse fixpoint (C03); stored '
                    'expressions are acyclic (C04)',
-                   'transform pairs are mutually inverse on the values used; values are integers or booleans',
-                   'slave devices are disabled (no network); enabled slaves and slave ports are C12/C13',
+                   'values are integers or booleans; transforms are additions/negations of known meaning; the property is '
+                   'claimed for ports whose read transform undoes the write transform (or that have neither): for the others '
+                   'the code drifts (known finding C07-non-inverse-transforms-drift, Lean non_inverse_transforms_drift) and '
+                   'the oracle accepts exactly read(write(v)) for the value of that port, nothing else',
+                   'slave devices of the model are disabled (record level, no network); enabled, permanently offline slave '
+                   'devices and their ports (slave_ports records) are covered by the before/after oracle on the real hub '
+                   'only - they are not in the Lean model; live synchronisation with reachable slaves is C12/C13',
                    'a transient storage error is a single failing replace/insert of the save loop; the property\'s "followed '
                    'by a save" is met by the save loop retrying the still-pending port',
                    'peripheral-provided ports are not covered']
@@ -278,11 +306,14 @@ class C07(Prop):
             [['sadd', {'scheme': 'http', 'host': h, 'port': 80, 'path': '/', 'admin_password': 'x', 'poll_interval': 0,
                        'listen_enabled': False}] for h in rem] +
             [['patch', 'garage-door.temp', {'tag': 'sec "1"'}], ['patch', 'attic.sw', {'tag': 'a'}]],
-            [['sdel', 'garage']],
+            # (the ports of a slave are saved once more by the save loop after every boot, when their first value arrives:
+            # the removal comes after that)
+            [['sleep', 5000], ['sdel', 'garage']],
             []])
         # transforms that are not mutually inverse (the write transform of the same PATCH is refused): the persisted
         # value drifts by the read transform at every restart - known finding C07-non-inverse-transforms-drift
-        c12 = dict(base, name='persisted value under a read transform without write transform', driver='redis', phases=[
+        c12 = dict(base, name='persisted value under a read transform without write transform', driver='redis',
+                   report_known=True, phases=[
             [['add', {'id': 'v1', 'type': 'number'}],
              ['patch', 'v1', {'expression': '$lp2\t', 'transform_write': 'ADD($v9, 1)', 'transform_read': 'ADD(10,$)',
                               'display_name': 'd'}],
@@ -486,7 +517,9 @@ class C07(Prop):
         victim = rng.choice([short, short, short, long_, 'attic'])
         k = rng.randrange(len(case['phases']) - 1)
         case['phases'][0] = pre + case['phases'][0]
-        case['phases'][k] = case['phases'][k] + [['sdel', victim]]
+        # the ports of a slave are saved once more by the save loop after every boot (their first value arrives): the
+        # removal mostly comes after that
+        case['phases'][k] = case['phases'][k] + ([['sleep', 5000]] if rng.random() < 0.85 else []) + [['sdel', victim]]
 
     def _tail(self, rng, s, live, defs, slaves, VIDS):
         """what happens right before a restart: (a) one storage write of the save loop fails once (transient error) and
@@ -684,8 +717,10 @@ class C07(Prop):
             mc = code if code in ('no-such-port', 'duplicate-port', 'port-not-removable', 'no-such-device') else 'refused'
         return rc, mc
 
-    def _model_view(self, driver, docs_c, vals, hashes):
-        """query the model for everything the real documents contain; return (model view, real view) comparable"""
+    def _model_view(self, driver, docs_c, vals, hashes, after_restart=False):
+        """query the model for everything the real documents contain; return (model view, real view) comparable.
+        `after_restart`: the real values are those of the first polling passes after the load - the model's `firstRead`
+        (read(write(v)) for a persisted, enabled, writable port; the loaded value otherwise)"""
         mv, rv = {'ports': {}, 'device': None, 'slaves': {}}, {'ports': {}, 'device': None, 'slaves': {}}
         for pid, p in docs_c['ports'].items():
             if 'provisioning' in p:
@@ -702,6 +737,11 @@ class C07(Prop):
                 m['attrs'] = kv
                 if 'value' in p:
                     m['value'] = mval
+                    if after_restart:
+                        fr = driver.ask(f'firstread {hx(pid)}').split(' ')
+                        if fr[0] != 'ok' or len(fr) != 2:
+                            raise RuntimeError(f'model: firstread {pid}: {fr}')
+                        m['value'] = fr[1]
                 mv['ports'][pid] = m
             r = {'virtual': '1' if p.get('virtual') else '0', 'writable': '1' if p.get('writable') else '0'}
             if p.get('virtual'):
@@ -775,6 +815,21 @@ class C07(Prop):
             v = apply_meaning(xf[tr], v)
         return v
 
+    def _predicted_drift(self, before, xf):
+        """{port id: value predicted after the restart} for the ports of the known finding: persisted (value shown),
+        enabled, writable, no expression, read/write transforms of known meaning that are not mutually inverse, and
+        read(write(v)) != v"""
+        drift = {}
+        for pid, p in before['ports'].items():
+            if p.get('value') is None or not p.get('writable') or not p.get('enabled') or not p.get('persisted'):
+                continue
+            if self._inverse_ok(p, xf):
+                continue
+            exp = self._drifted(p, xf)
+            if exp is not NotImplemented and exp is not None and not same_value(exp, p['value']):
+                drift[pid] = exp
+        return drift
+
     @staticmethod
     def _first_diff(a, b, path=''):
         if isinstance(a, dict) and isinstance(b, dict):
@@ -822,38 +877,46 @@ class C07(Prop):
 
         # ---------------- oracle: before the restart == after the restart; driver writes of the load
         removed = 0
+        drift_fail = None
         for k in range(1, len(outs)):
             before = self._canon_docs(outs[k - 1]['final'], outs[k - 1]['final_vals'])
             after = self._canon_docs(outs[k]['boot'], outs[k]['boot_vals'])
-            if fail is None and before != after:
-                # persisted ports whose read transform is not the inverse of their write transform: their value is
-                # expected to drift by read(write(v)) at the restart (known finding) - exactly that and nothing else
-                drift = {}
-                for pid, p in before['ports'].items():
-                    if 'value' in p and p['value'] is not None and p.get('enabled') and not self._inverse_ok(p, xf):
-                        exp = self._drifted(p, xf)
-                        if exp is not NotImplemented and exp != p['value']:
-                            drift[pid] = exp
-                b2 = json.loads(json.dumps(before))
-                a2 = json.loads(json.dumps(after))
+            # known finding C07-non-inverse-transforms-drift: a persisted, enabled, writable port whose read transform is
+            # not the inverse of its write transform (one of them missing included) is predicted to come back with
+            # read(write(v)); the value of exactly these ports is taken out of the document comparison and must be that
+            # predicted value (or the old one) - everything else is compared as usual
+            drift = self._predicted_drift(before, xf)
+            b2, a2 = before, after
+            if drift:
+                tags.add('non-inverse-transforms')
+                b2, a2 = json.loads(json.dumps(before)), json.loads(json.dumps(after))
                 for pid in drift:
                     b2['ports'][pid].pop('value', None)
                     if pid in a2['ports']:
                         a2['ports'][pid].pop('value', None)
-                if b2 != a2 or not drift:
-                    fail = Failure('property', f'restart #{k}: the hub reports a different configuration after the restart: '
-                                   + self._first_diff(b2 if b2 != a2 else before, a2 if b2 != a2 else after),
-                                   real={'before': before, 'after': after})
-                else:
-                    bad = [pid for pid, exp in drift.items() if after['ports'][pid].get('value') not in (exp, before['ports'][pid]['value'])]
-                    pid = (bad or sorted(pid for pid in drift if after['ports'][pid].get('value') != before['ports'][pid]['value']))[0]
-                    p = before['ports'][pid]
-                    fail = Failure('property', f'restart #{k}: persisted port {pid} had value {p["value"]!r} before the restart and '
-                                   f'has {after["ports"][pid].get("value")!r} after it (transform_read {p.get("transform_read")!r}, '
-                                   f'transform_write {p.get("transform_write")!r} are not mutually inverse: the transformed value is '
-                                   f'persisted and re-applied through the write transform only)',
-                                   real={'before': p, 'after': after['ports'][pid]},
-                                   where='' if bad else 'non-inverse-transforms')
+            if fail is None and b2 != a2:
+                fail = Failure('property', f'restart #{k}: the hub reports a different configuration after the restart: '
+                               + self._first_diff(b2, a2), real={'before': before, 'after': after})
+            for pid, exp in sorted(drift.items()):
+                if pid not in after['ports'] or 'value' not in after['ports'][pid]:
+                    continue                          # reported by the document comparison
+                p, bv, av = before['ports'][pid], before['ports'][pid]['value'], after['ports'][pid]['value']
+                if same_value(av, bv):
+                    continue                          # no drift
+                if same_value(av, exp):
+                    tags.add('known-drift')
+                    if drift_fail is None:
+                        drift_fail = Failure(
+                            'property', f'restart #{k}: persisted port {pid} had value {bv!r} before the restart and has '
+                            f'{av!r} after it (transform_read {p.get("transform_read")!r}, transform_write '
+                            f'{p.get("transform_write")!r} are not mutually inverse: the transformed value is persisted and '
+                            f're-applied through the write transform only)',
+                            real={'before': p, 'after': after['ports'][pid], 'predicted': exp},
+                            where='non-inverse-transforms')
+                elif fail is None:
+                    fail = Failure('property', f'restart #{k}: persisted port {pid} had value {bv!r} before the restart and '
+                                   f'has {av!r} after it (neither the old value nor read(write(v)) = {exp!r})',
+                                   real={'before': p, 'after': after['ports'][pid]})
             if fail is None and outs[k - 1]['final_hashes'] != outs[k]['boot_hashes']:
                 fail = Failure('property', f'restart #{k}: password hashes differ after the restart')
             # deleted things must be absent
@@ -918,10 +981,10 @@ class C07(Prop):
                         continue
                     driver.ask(f'vc {hx(pid)} {e}')
 
-        def compare(where, docs, vals, hashes):
+        def compare(where, docs, vals, hashes, after_restart=False):
             nonlocal mfail
             dc = self._canon_docs(docs, vals)
-            mv, rv = self._model_view(driver, dc, vals, hashes)
+            mv, rv = self._model_view(driver, dc, vals, hashes, after_restart)
             if mfail is None and mv != rv:
                 mfail = Failure('correspondence', f'{where}: ' + self._first_diff(rv, mv), real=rv, model=mv)
 
@@ -936,7 +999,7 @@ class C07(Prop):
                     if mfail is None and mw != rw:
                         mfail = Failure('correspondence', f'restart #{k}: driver writes of {p["id"]} while loading: hub {rw} '
                                         f'model {mw}', real=rw, model=mw)
-            compare(f'after boot #{k}', out['boot'], out['boot_vals'], out['boot_hashes'])
+            compare(f'after boot #{k}', out['boot'], out['boot_vals'], out['boot_hashes'], after_restart=k > 0)
             prev = {}
             # the model's values follow the observed ones (value dynamics are not C07's business)
             for pid in out['boot_vals']:
@@ -971,6 +1034,11 @@ class C07(Prop):
 
         if fail is None:
             fail = mfail
+        if fail is None and case.get('report_known'):
+            # the known drift, when it is all that happened, is REPORTED only by the corpus witness (which makes every
+            # run print the KNOWN-FINDING line); generated cases tolerate exactly the predicted drift (tag
+            # `known-drift`) and go on, so that any other violation they contain still fails
+            fail = drift_fail
         final = self._canon_docs(outs[-1]['final'], outs[-1]['final_vals'])
         key = None
         if {'persisted-value-restart', 'non-default-attrs'} <= tags:
@@ -982,9 +1050,22 @@ class C07(Prop):
 
     def known_match(self, finding, case, failure):
         if finding.get('id') == 'C07-non-inverse-transforms-drift':
-            # only the drift predicted for that class: a persisted, enabled port whose read transform is not the inverse
-            # of its write transform (one of them missing included) comes back with read(write(v))
-            return failure.kind == 'property' and failure.where == 'non-inverse-transforms'
+            # only the drift predicted for that class: a persisted, enabled, writable port whose read transform is not
+            # the inverse of its write transform (one of them missing included) comes back with read(write(v)) and
+            # nothing else differs (the oracle sets `where` only then); re-checked here from the failing port itself
+            if failure.kind != 'property' or failure.where != 'non-inverse-transforms':
+                return False
+            real = failure.real or {}
+            p, q = real.get('before') or {}, real.get('after') or {}
+            self.canon_map = {(k, t): c for k, t, c in case['canon'] if c is not None}
+            xf = {t: (kind, c) for t, kind, c in case['xf']}
+            if not (p.get('persisted') and p.get('writable') and p.get('enabled') and not p.get('expression')):
+                return False
+            if self._inverse_ok(p, xf):
+                return False
+            exp = self._drifted(p, xf)
+            return (exp is not NotImplemented and exp is not None and same_value(q.get('value'), exp)
+                    and not same_value(p.get('value'), exp))
         return False
 
 
